@@ -15,6 +15,12 @@ theorem snapshot_covers (k : MemKind) :
     ∀ r ∈ regionsOf k, r ∈ (cfgNow k).taken ∧ r ∈ (cfgNow k).restored :=
   snapshot_covers_tag (tagOf k)
 
+/-- FACT (C07): no two statements of a TakeSnapshot write the same buffer (two regions sharing one snapshot buffer
+    would overwrite each other) -/
+theorem take_targets_distinct :
+    (LinearMemory_TakeSnapshot.map (·.1)).Nodup ∧ (X16Memory_TakeSnapshot.map (·.1)).Nodup ∧
+    (NeoGeoRam_TakeSnapshot.map (·.1)).Nodup ∧ (F256RevBMemory_TakeSnapshot.map (·.1)).Nodup := by decide
+
 /-- FACT (C07): the wrapper layers forward all three calls to the wrapped memory -/
 theorem wrapper_forwards :
     WrappingMemory_TakeSnapshot = [("->", "p.mem.TakeSnapshot")] ∧
